@@ -129,6 +129,13 @@ def main():
             return 1
         return 0
     t0 = time.time()
+    # replays of earlier runs of this property/tier are stale: remove them
+    import glob
+    for f in glob.glob(os.path.join(common.VERIF, "replays", prop, "%s-s*.json" % tier)):
+        try:
+            os.remove(f)
+        except OSError:
+            pass
     if hasattr(mod, "run"):
         # property-specific driver (still uses aggregate for the verdict)
         results, info = mod.run(tier, seed, a)
